@@ -395,7 +395,7 @@ func cmdCheck(prop string, tier string) int {
 			inconclusive = append(inconclusive, fmt.Sprintf("%s: undecided: %s (x%d)", h.Name, k, s.Undecided[k]))
 		}
 		for _, e := range s.EngineErrs {
-			inconclusive = append(inconclusive, fmt.Sprintf("%s: engine error: %s", h.Name, e))
+			inconclusive = append(inconclusive, fmt.Sprintf("%s: engine error: %s", h.Name, trunc(e, 1200)))
 		}
 		if s.Truncated != "" {
 			inconclusive = append(inconclusive, fmt.Sprintf("%s: %s", h.Name, s.Truncated))
@@ -643,7 +643,7 @@ func cmdRun(args []string) int {
 		fmt.Printf("  UNDECIDED x%d: %s\n", s.Undecided[k], k)
 	}
 	for _, e := range s.EngineErrs {
-		fmt.Printf("  ENGINE-ERROR: %s\n", e)
+		fmt.Printf("  ENGINE-ERROR: %s\n", trunc(e, 1500))
 	}
 	fmt.Printf("  reached: %v\n", s.Reached)
 	for j, v := range s.Violations {
